@@ -22,7 +22,9 @@ RULE = ('all adversarial cases of the generators of %s (a key run that cannot fi
         'chunksize*value_factor; a CSV window that cannot hold a record; empty inputs) plus every k-th ordinary case, run '
         'under a per-case watchdog in JIT and interpreted mode: a HANG, or an executed-line count above %d*(input+output '
         'size)+%d in interpreted mode, is a violation; where the model returns OutOfFuel the implementation must not '
-        'terminate either (none does on the repaired tree). Non-trivial = adversarial or multi-chunk.'
+        'terminate either (none does on the repaired tree). For the streamed join drivers the number of kernel calls '
+        '(= loop iterations) of every returning run is counted and must not exceed the proved bound |L|+|R|+|join|. '
+        'Non-trivial = adversarial or multi-chunk.'
         % (', '.join(SOURCES), STEP_A, STEP_B))
 EXHAUSTIVE = {'quick': False, 'thorough': False}
 TRUSTED = ['wall-clock watchdog of harness/worker.py (HANG = no answer within the per-case limit)',
@@ -74,22 +76,80 @@ class _Counter:
         return self.local
 
 
+# the kernels the eight streamed join drivers call once per loop iteration (main loop: *_partial, tail loop: *_remaining)
+_JOIN_KERNELS = ['generate_ordered_map_to_%s%s_partial' % (f, u) for f in ('left', 'inner')
+                 for u in ('', '_left_unique', '_right_unique', '_both_unique')] + \
+                ['generate_ordered_map_to_left_remaining', 'generate_ordered_map_to_left_right_unique_remaining']
+
+
+class _KernelCalls:
+    """Counts the kernel calls a streamed join driver makes (= its loop iterations) by wrapping the module
+    attributes of exetera.core.operations for the duration of one case (restored afterwards)."""
+    def __init__(self):
+        self.n = 0
+        self.saved = {}
+
+    def __enter__(self):
+        from exetera.core import operations as ops
+        self.ops = ops
+        for name in _JOIN_KERNELS:
+            f = getattr(ops, name, None)
+            if f is None:
+                continue
+            self.saved[name] = f
+            setattr(ops, name, self._wrap(f))
+        return self
+
+    def _wrap(self, f):
+        def g(*a, **k):
+            self.n += 1
+            return f(*a, **k)
+        return g
+
+    def __exit__(self, *exc):
+        for name, f in self.saved.items():
+            setattr(self.ops, name, f)
+        return False
+
+
+def _run_counted(case):
+    if case['p'] == 'C03':
+        with _KernelCalls() as kc:
+            r = _meta.run(case)
+        return r, kc.n
+    return _meta.run(case), None
+
+
 def run(case):
     if os.environ.get('VERIF_MODE') == 'nojit' and case['p'] in STEP_SOURCES:
         c = _Counter()
         sys.settrace(c.tracer)
         try:
-            r = _meta.run(case)
+            r, kcalls = _run_counted(case)
         finally:
             sys.settrace(None)
-        return {'steps': c.n, 'res': r}
-    return _meta.run(case)
+        out = {'steps': c.n, 'res': r}
+    else:
+        r, kcalls = _run_counted(case)
+        if kcalls is None:
+            return r
+        out = {'res': r}
+    if kcalls is not None:
+        out['kcalls'] = kcalls
+    return out
 
 
 def _strip(impl):
-    if isinstance(impl, dict) and 'steps' in impl and 'res' in impl:
+    if isinstance(impl, dict) and 'res' in impl and ('steps' in impl or 'kcalls' in impl):
         return impl['res']
     return impl
+
+
+def _join_bound(case, res):
+    """|L| + |R| + |join|: the proved bound (Props/C12.v c12_streamed_join_linear_work) on the number of kernel
+    calls (= iterations of the main loop and the tail loop together) of a streamed join driver that returns."""
+    c = case['c']
+    return len(c['L']) + len(c['R']) + len(res[1])
 
 
 def equal(case, impl, expected, mode):
@@ -113,6 +173,10 @@ def cross_mode(case, impl_by_mode, model):
             size = _size(_meta.to_val(case)) + _size(impl['res'])
             if impl['steps'] > STEP_A * size + STEP_B:
                 return 'executed %d lines for input+output size %d (budget %d*size+%d)' % (impl['steps'], size, STEP_A, STEP_B)
+        if isinstance(impl, dict) and 'kcalls' in impl and isinstance(impl['res'], list):
+            b = _join_bound(case, impl['res'])
+            if impl['kcalls'] > b:
+                return 'streamed join driver made %d kernel calls (%s), proved bound |L|+|R|+|join| = %d' % (impl['kcalls'], mode, b)
     return None
 
 
@@ -129,8 +193,20 @@ def summarize(recs):
             p = r['case']['p']
             by[p] = max(by.get(p, 0.0), round(ratio, 1))
     hang = sum(1 for r in recs for v in r['impl'].values() if v == 'HANG')
+    kn, kworst, ktight = 0, 0.0, 0
+    for r in recs:
+        for impl in r['impl'].values():
+            if isinstance(impl, dict) and 'kcalls' in impl and isinstance(impl['res'], list):
+                b = _join_bound(r['case'], impl['res'])
+                kn += 1
+                if b > 0:
+                    kworst = max(kworst, impl['kcalls'] / float(b))
+                if impl['kcalls'] == b:
+                    ktight += 1
     return {'steps': {'cases_counted': n, 'max_lines_per_unit_size': round(worst, 1), 'by_source': by,
-                      'budget': '%d*size+%d' % (STEP_A, STEP_B)}, 'hangs': hang}
+                      'budget': '%d*size+%d' % (STEP_A, STEP_B)}, 'hangs': hang,
+            'join_kernel_calls': {'runs_counted': kn, 'max_calls_over_bound': round(kworst, 3), 'runs_meeting_bound': ktight,
+                                  'bound': '|L|+|R|+|join| (c12_streamed_join_linear_work)'}}
 
 
 def _adversarial(pid, c):
